@@ -480,6 +480,66 @@ Definition build_response_resolved (v : variant) (ovf : bool) (pad : nat) (xid :
   payload <- build_dhcp4_reply v pad xid ciaddr yip src hw msgtype opts ;;
   build_ipv4_udp_frame v ovf src (Some [255;255;255;255]) 67 68 payload.
 
+(* ------------------------------------------------------------------ pkg/dhcp/resolve.go ResolveV4 (address already chosen) *)
+(* Strings of the configuration are represented by what net.ParseIP / net.ParseCIDR / DHCPOption.Decode make of them:
+   an address string is None when empty or unparseable, Some 16-byte value otherwise (ParseIP returns the 16-byte form
+   also for dotted IPv4); a pool is (network ip, network mask) when its CIDR parses (4+4 bytes for IPv4, 16+16 for
+   IPv6) or None; a raw option is (tag, Some payload) or (tag, None) when Decode fails. *)
+Record pool4 := { pl_net : option (bytes * bytes); pl_gw_set : bool (* pool.Gateway != "" *); pl_gw : option bytes;
+                  pl_opts : list (N * option bytes) }.
+Record profile4 := { pf_gw : option bytes; pf_sid : option bytes; pf_dns : list (option bytes);
+                     pf_unnumbered : bool (* address model "unnumbered-ptp" *); pf_lease : N (* DHCP.LeaseTime, 0 = unset *);
+                     pf_pools : list pool4 }.
+Record ctx4 := { cx_addr : bytes; cx_gw : option bytes; cx_mask : option bytes; cx_dns : list (option bytes) }.
+Record resolved4 := { rs_yip : option bytes; rs_mask : bytes; rs_router : option bytes; rs_dns : list (option bytes);
+                      rs_lease : N; rs_sid : option bytes; rs_routes : list (N * option bytes * option bytes);
+                      rs_opts : list (N * bytes) }.
+
+Fixpoint and_bytes (a m : bytes) : bytes :=
+  match a, m with x :: a', y :: m' => N.land x y :: and_bytes a' m' | _, _ => [] end.
+(* net.IPNet.Contains *)
+Definition net_contains (n : bytes * bytes) (ip : bytes) : bool :=
+  let ip' := match to4 (Some ip) with Some x => x | None => ip end in
+  ((length ip' =? length (fst n))%nat && (length (snd n) =? length (fst n))%nat
+   && bytes_eqb (and_bytes (fst n) (snd n)) (and_bytes ip' (snd n)))%bool.
+Definition find_pool (addr : bytes) (pools : list pool4) : option pool4 :=
+  find (fun p => match pl_net p with Some n => net_contains n addr | None => false end) pools.
+Definition first_some {A} (a b : option A) : option A := match a with Some _ => a | None => b end.
+
+Definition resolve_v4 (cx : ctx4) (pf : profile4) : resolved4 :=
+  let pool := find_pool (cx_addr cx) (pf_pools pf) in
+  let router :=
+      match cx_gw cx with
+      | Some g => Some g
+      | None => match pool with
+                | Some p => if pl_gw_set p then pl_gw p else pf_gw pf
+                | None => pf_gw pf
+                end
+      end in
+  let sid := first_some (pf_sid pf) router in
+  let dns := match cx_dns cx with [] => filter (fun d => match d with Some _ => true | None => false end) (pf_dns pf) | l => l end in
+  let mask_routes :=
+      if pf_unnumbered pf then
+        ([255;255;255;255],
+         match router with Some _ => [(0, Some (v4in6_prefix ++ [0;0;0;0]), router)] | None => [] end)
+      else
+        (match cx_mask cx with
+         | Some m => m
+         | None => match pool with Some p => match pl_net p with Some n => snd n | None => [] end | None => [] end
+         end, []) in
+  {| rs_yip := Some (cx_addr cx); rs_mask := fst mask_routes; rs_router := router; rs_dns := dns;
+     rs_lease := (if pf_lease pf =? 0 then 3600 else pf_lease pf); rs_sid := sid; rs_routes := snd mask_routes;
+     rs_opts := match pool with
+                | Some p => concat (map (fun o => match snd o with Some d => [(fst o, d)] | None => [] end) (pl_opts p))
+                | None => [] end |}.
+
+(* ResolveV4 followed by the local server's buildResponseFromResolved: configuration + AAA context -> frame on the wire *)
+Definition resolve_and_reply (v : variant) (ovf : bool) (pad : nat) (xid : N) (ciaddr : option bytes) (hw : bytes) (msgtype : N)
+           (cx : ctx4) (pf : profile4) : result (option bytes) :=
+  let r := resolve_v4 cx pf in
+  build_response_resolved v ovf pad xid ciaddr hw msgtype (rs_yip r) (rs_router r) (rs_sid r) (rs_mask r) (rs_dns r)
+                          (rs_lease r) (rs_routes r) (rs_opts r).
+
 (* ------------------------------------------------------------------ reference DHCPv4 decoder (RFC 2131/2132) *)
 (* independent of the Go walkers above: plain RFC option walk over the options area *)
 Inductive opt_end := EndSeen (trailing : bytes) | NoEnd | Truncated.
